@@ -68,11 +68,11 @@ func drawOptions(t *core.Tape) optVariant {
 }
 
 type runOut struct {
-	trace   []string
-	out     hostapi.Outcome
-	h       *hostapi.Host
-	hash    uint64
-	viol    []string
+	trace []string
+	out   hostapi.Outcome
+	h     *hostapi.Host
+	hash  uint64
+	viol  []string
 }
 
 func execVM(proto *lua.FunctionProto, ov optVariant, kind int, at int64, maxSteps int64, withCtx bool) *runOut {
